@@ -95,7 +95,10 @@ func varyMembers(lines []string) []string {
 	return out
 }
 
-var c10Mutable = []string{hOrigin, hACRM, hACRH, hACRPN, "Referer", "X-Unrelated", "Authorization", "Cookie"}
+// (the last four: request headers that merely LOOK related - lesson of seeded change C10-p, an outcome made to depend on a new
+// Access-Control-Request-* header that Vary does not name)
+var c10Mutable = []string{hOrigin, hACRM, hACRH, hACRPN, "Referer", "X-Unrelated", "Authorization", "Cookie",
+	"Access-Control-Request-Local-Network", "Access-Control-Request-Credentials", "Sec-Fetch-Mode", "Access-Control-Request-Foo"}
 
 func c10Pool(h string, allowed []string) [][]string {
 	switch h {
@@ -111,6 +114,10 @@ func c10Pool(h string, allowed []string) [][]string {
 		return [][]string{nil, {}, {"x-listed-1"}, {"x-listed-1,x-listed-2"}, {"authorization"}, {"x-unlisted"}, {"content-type"}, {""}, {"x-listed-1", "x-listed-2"}, {"x-listed-2,x-listed-1"}}
 	case hACRPN:
 		return [][]string{nil, {}, {"true"}, {"false"}, {"TRUE"}}
+	case "Access-Control-Request-Local-Network", "Access-Control-Request-Credentials", "Access-Control-Request-Foo":
+		return [][]string{nil, {"true"}, {"false"}}
+	case "Sec-Fetch-Mode":
+		return [][]string{nil, {"cors"}, {"no-cors"}}
 	default:
 		return [][]string{nil, {"https://referrer.invalid/"}, {"v2"}}
 	}
